@@ -694,6 +694,82 @@ func c24Pairs() []c24Pair {
 	}
 }
 
+// c24Unset sets a random subset of the singular sub-messages reachable from the message m to nil
+// (elements of repeated fields cannot be unset on the wire; map values can) and returns how many.
+func c24Unset(g *c24Gen, m reflect.Value) int {
+	if m.Kind() != reflect.Ptr || m.IsNil() || m.Elem().Kind() != reflect.Struct {
+		return 0
+	}
+	n := 0
+	st := m.Elem()
+	for i := 0; i < st.NumField(); i++ {
+		name := st.Type().Field(i).Name
+		if name == "state" || name == "sizeCache" || name == "unknownFields" {
+			continue
+		}
+		f := st.Field(i)
+		switch f.Kind() {
+		case reflect.Ptr:
+			if f.IsNil() || f.Type().Elem().Kind() != reflect.Struct {
+				continue
+			}
+			if g.r.Chance(35) {
+				f.Set(reflect.Zero(f.Type()))
+				n++
+			} else {
+				n += c24Unset(g, f)
+			}
+		case reflect.Slice:
+			if f.Type().Elem().Kind() == reflect.Ptr {
+				for k := 0; k < f.Len(); k++ {
+					n += c24Unset(g, f.Index(k))
+				}
+			}
+		case reflect.Map:
+			if f.Type().Elem().Kind() == reflect.Ptr {
+				for _, k := range f.MapKeys() {
+					if g.r.Chance(20) {
+						f.SetMapIndex(k, reflect.Zero(f.Type().Elem()))
+						n++
+					} else {
+						n += c24Unset(g, f.MapIndex(k))
+					}
+				}
+			}
+		}
+	}
+	return n
+}
+
+type c24QNil struct {
+	name string
+	f    func() (any, error)
+}
+
+// the FromProto function of every query node type, called with a nil message
+func c24QueryNilCalls() []c24QNil {
+	return []c24QNil{
+		{"And", func() (any, error) { return query.AndFromProto(nil) }},
+		{"Boost", func() (any, error) { return query.BoostFromProto(nil) }},
+		{"Branch", func() (any, error) { return query.BranchFromProto(nil), nil }},
+		{"BranchRepos", func() (any, error) { return query.BranchReposFromProto(nil) }},
+		{"BranchesRepos", func() (any, error) { return query.BranchesReposFromProto(nil) }},
+		{"FileNameSet", func() (any, error) { return query.FileNameSetFromProto(nil), nil }},
+		{"Language", func() (any, error) { return query.LanguageFromProto(nil), nil }},
+		{"Meta", func() (any, error) { return query.MetaFromProto(nil) }},
+		{"Not", func() (any, error) { return query.NotFromProto(nil) }},
+		{"Or", func() (any, error) { return query.OrFromProto(nil) }},
+		{"Regexp", func() (any, error) { return query.RegexpFromProto(nil) }},
+		{"Repo", func() (any, error) { return query.RepoFromProto(nil) }},
+		{"RepoIDs", func() (any, error) { return query.RepoIDsFromProto(nil) }},
+		{"RepoRegexp", func() (any, error) { return query.RepoRegexpFromProto(nil) }},
+		{"RepoSet", func() (any, error) { return query.RepoSetFromProto(nil), nil }},
+		{"Substring", func() (any, error) { return query.SubstringFromProto(nil), nil }},
+		{"Symbol", func() (any, error) { return query.SymbolFromProto(nil) }},
+		{"Type", func() (any, error) { return query.TypeFromProto(nil) }},
+	}
+}
+
 // c24Call runs f with recover: (result, panicked, panic text)
 func c24Call(f func() any) (res any, panicked bool, what string) {
 	defer func() {
@@ -839,9 +915,23 @@ func TestVerifC24(t *testing.T) {
 		}
 		nontrivial := len(goEnc) > 200
 		vfCase(fmt.Sprintf("(WConv (CRec true false %s) %s (Ok %s) %s)", tn, goEnc, pbEnc, invalid), "to:"+goEnc, nontrivial, cls, map[string]any{"type": p.name, "go": goEnc})
-		if !g.cls["nil-repo-in-map"] {
-			// FromProto of an unset sub-message is only approximated by the model (zero record): not compared
-			vfCase(fmt.Sprintf("(WConv (CRec false false %s) %s (Ok %s) %s)", tn, pbEnc, backEnc, invalid), "from:"+pbEnc, nontrivial, cls, map[string]any{"type": p.name, "pb": pbEnc})
+		// (a nil *Repository in SubRepoMap is an unset map value on the wire: RepositoryFromProto(nil), inside the model)
+		vfCase(fmt.Sprintf("(WConv (CRec false false %s) %s (Ok %s) %s)", tn, pbEnc, backEnc, invalid), "from:"+pbEnc, nontrivial, cls, map[string]any{"type": p.name, "pb": pbEnc})
+		// the same message with a random subset of its sub-messages unset (what a client / server of
+		// another version may send): FromProto must neither panic nor differ from the model
+		if msg, ok := pb.(proto.Message); ok {
+			cl := proto.Clone(msg)
+			if k := c24Unset(g, reflect.ValueOf(cl)); k > 0 {
+				clEnc := c24Enc(reflect.ValueOf(cl))
+				back3, panicked3, what3 := c24Call(func() any { return p.from(cl) })
+				obs3 := "(Panic 0)"
+				if panicked3 {
+					vfOracleFail("from-panic:"+p.name+":unset-submessage:"+c24PanicKey(what3), p.name+"FromProto panics on a message with unset sub-messages: "+what3, map[string]any{"type": p.name, "message": fmt.Sprint(cl), "value": clEnc})
+				} else {
+					obs3 = "(Ok " + c24Enc(reflect.ValueOf(back3)) + ")"
+				}
+				vfCase(fmt.Sprintf("(WConv (CRec false false %s) %s %s %s)", tn, clEnc, obs3, invalid), "from-unset:"+clEnc, true, append(append([]string(nil), cls...), "unset-submessages"), map[string]any{"type": p.name, "pb": clEnc, "unset": k})
+			}
 		}
 		if !g.ood {
 			vfCase(fmt.Sprintf("(WDom (CRec true false %s) (CRec false false %s) %s %s)", tn, tn, goEnc, invalid), "dom:"+goEnc, nontrivial, cls, map[string]any{"type": p.name, "go": goEnc})
@@ -859,6 +949,61 @@ func TestVerifC24(t *testing.T) {
 				vfOracleFail("roundtrip:"+p.name+":"+c24FirstDiff(masked, reflect.ValueOf(back)), "zoekt."+p.name+" does not survive ToProto/FromProto", map[string]any{"type": p.name, "value": goEnc, "back": backEnc})
 			}
 		}
+	}
+
+	// ---- 1b. unset messages: XFromProto(nil) and XFromProto(&X{}) of every struct type (every run)
+	for _, p := range pairs {
+		zv := reflect.New(p.typ).Elem()
+		pb0, panicked, _ := c24Call(func() any { return p.to(zv) })
+		if panicked || pb0 == nil {
+			t.Fatalf("C24: %s.ToProto of the zero value", p.name)
+		}
+		mt := reflect.TypeOf(pb0) // *webserverv1.X
+		tn := "\"zoekt." + p.name + "\"%string"
+		enc := func(res any, panicked bool) string {
+			if panicked {
+				return "(Panic 0)"
+			}
+			return "(Ok " + c24Enc(reflect.ValueOf(res)) + ")"
+		}
+		resNil, pNil, wNil := c24Call(func() any { return p.from(reflect.Zero(mt).Interface()) })
+		if pNil {
+			vfOracleFail("from-panic:"+p.name+":nil-message:"+c24PanicKey(wNil), p.name+"FromProto(nil) panics (an unset sub-message): "+wNil, map[string]any{"type": p.name, "message": "nil"})
+		}
+		vfCase(fmt.Sprintf("(WNilFrom %s %s %s)", tn, enc(resNil, pNil), invalid), "nilfrom:"+p.name, true, []string{"rec:" + p.name, "nil-message"}, map[string]any{"type": p.name, "message": "nil"})
+		empty := reflect.New(mt.Elem()).Interface()
+		emptyEnc := c24Enc(reflect.ValueOf(empty))
+		resE, pE, wE := c24Call(func() any { return p.from(empty) })
+		if pE {
+			vfOracleFail("from-panic:"+p.name+":empty-message:"+c24PanicKey(wE), p.name+"FromProto panics on the message with every field unset: "+wE, map[string]any{"type": p.name, "message": "empty", "value": emptyEnc})
+		}
+		vfCase(fmt.Sprintf("(WConv (CRec false false %s) %s %s %s)", tn, emptyEnc, enc(resE, pE), invalid), "emptyfrom:"+p.name, true, []string{"rec:" + p.name, "empty-message"}, map[string]any{"type": p.name, "message": "empty"})
+		// generated getters answer zero values on a nil receiver: unless the function returns nil for nil,
+		// an unset message must convert like the message with every field unset
+		if !pNil && !pE {
+			rv := reflect.ValueOf(resNil)
+			guarded := rv.Kind() == reflect.Ptr && rv.IsNil()
+			if !guarded && enc(resNil, false) != enc(resE, false) {
+				vfOracleFail("nil-vs-empty:"+p.name, p.name+"FromProto(nil) differs from FromProto of the message with every field unset", map[string]any{"type": p.name, "nil": enc(resNil, false), "empty": enc(resE, false)})
+			}
+		}
+	}
+	// ... and the FromProto functions of the query nodes
+	for _, qn := range c24QueryNilCalls() {
+		var res any
+		var ferr error
+		_, panicked, what := c24Call(func() any { res, ferr = qn.f(); return nil })
+		obs := ""
+		switch {
+		case panicked:
+			obs = "(Panic 0)"
+			vfOracleFail("qnode-from-panic:"+qn.name+":nil-message:"+c24PanicKey(what), "query."+qn.name+"FromProto(nil) panics: "+what, map[string]any{"type": qn.name, "message": "nil"})
+		case ferr != nil:
+			obs = "(Err 0)"
+		default:
+			obs = "(Ok " + c24Enc(reflect.ValueOf(res)) + ")"
+		}
+		vfCase(fmt.Sprintf("(WNilFrom \"query.%s\"%%string %s %s)", qn.name, obs, invalid), "nilfrom:query."+qn.name, true, []string{"qnode:" + qn.name, "nil-message"}, map[string]any{"type": "query." + qn.name, "message": "nil", "obs": obs[:5]})
 	}
 
 	// ---- 2a. query trees, Go side
@@ -986,8 +1131,66 @@ func TestVerifC24(t *testing.T) {
 		var cls uint64
 		var what string
 		var msg string
-		switch h {
-		case 0:
+		// the first rounds are directed (every run): each handler with every subset of {query, options}
+		// set, and StreamSearch with the inner request unset
+		directed := i < 15
+		dq, dopts, dreq := (i/3)&1 == 1, (i/3)&2 == 2, i/3 < 4
+		constQ := &webserverv1.Q{Query: &webserverv1.Q_Const{Const: true}}
+		if directed {
+			g.cls["directed"] = true
+			if !dq {
+				g.cls["pq-nil"] = true
+			}
+			if !dopts {
+				g.cls["opts-nil"] = true
+			}
+		}
+		switch {
+		case directed && h == 0:
+			in := &webserverv1.SearchRequest{}
+			if dq {
+				in.Query = constQ
+			}
+			if dopts {
+				in.Opts = &webserverv1.SearchOptions{}
+			}
+			reqEnc = c24Enc(reflect.ValueOf(in))
+			msg = fmt.Sprint(in)
+			var herr error
+			_, p, w := c24Call(func() any { _, herr = srv.Search(ctx, in); return nil })
+			cls, what = c24ErrClass(herr, p), w
+		case directed && h == 1:
+			in := &webserverv1.StreamSearchRequest{}
+			if dreq {
+				in.Request = &webserverv1.SearchRequest{}
+				if dq {
+					in.Request.Query = constQ
+				}
+				if dopts {
+					in.Request.Opts = &webserverv1.SearchOptions{}
+				}
+			} else {
+				g.cls["stream-request-unset"] = true
+			}
+			reqEnc = c24Enc(reflect.ValueOf(in))
+			msg = fmt.Sprint(in)
+			var herr error
+			_, p, w := c24Call(func() any { herr = srv.StreamSearch(in, &c24Stream{ctx: ctx}); return nil })
+			cls, what = c24ErrClass(herr, p), w
+		case directed && h == 2:
+			in := &webserverv1.ListRequest{}
+			if dq {
+				in.Query = constQ
+			}
+			if dopts {
+				in.Opts = &webserverv1.ListOptions{}
+			}
+			reqEnc = c24Enc(reflect.ValueOf(in))
+			msg = fmt.Sprint(in)
+			var herr error
+			_, p, w := c24Call(func() any { _, herr = srv.List(ctx, in); return nil })
+			cls, what = c24ErrClass(herr, p), w
+		case h == 0:
 			req := &webserverv1.SearchRequest{Query: g.pq(0), Opts: g.popts()}
 			var in *webserverv1.SearchRequest
 			if g.r.Chance(3) {
@@ -1001,7 +1204,7 @@ func TestVerifC24(t *testing.T) {
 			var herr error
 			_, p, w := c24Call(func() any { _, herr = srv.Search(ctx, in); return nil })
 			cls, what = c24ErrClass(herr, p), w
-		case 1:
+		case h == 1:
 			req := &webserverv1.StreamSearchRequest{}
 			if !g.r.Chance(8) {
 				req.Request = &webserverv1.SearchRequest{Query: g.pq(0), Opts: g.popts()}
@@ -1037,6 +1240,12 @@ func TestVerifC24(t *testing.T) {
 			key := "handler-panic:" + hn + ":" + c24PanicKey(what)
 			if g.cls["opts-nil"] && !g.cls["pq-nil"] && !g.cls["pq-unset-oneof"] {
 				key += ":nil-opts"
+			}
+			if g.cls["req-nil"] {
+				key += ":nil-request-pointer" // a direct call with a nil request; gRPC itself always passes a message
+			}
+			if g.cls["stream-request-unset"] {
+				key += ":request-unset"
 			}
 			vfOracleFail(key, "gRPC handler "+hn+" panics (no recovery interceptor is installed: the server process dies): "+what, map[string]any{"handler": hn, "request": msg, "value": reqEnc})
 		}
